@@ -233,6 +233,13 @@ impl Property for C18 {
             }
         };
         if !approx_eq(&parsed, &expect) {
+            if has_double_quote_edge(&expect) {
+                // known family: the token text `"\"\"x"` reads `"""x"` and is taken for a multi-line literal
+                return Outcome::fail(
+                    "a string literal beginning or ending with two quote characters loses them",
+                    json!({"source": src, "output": vkit::util::truncate(&out, 1500), "expected": expect}),
+                );
+            }
             // which binding differs first
             let mut which = String::new();
             if let (Value::Object(p), Value::Object(x)) = (&parsed, &expect) {
@@ -248,6 +255,16 @@ impl Property for C18 {
             return Outcome::fail(format!("JSON value differs from the bound value: {which}"), json!({"source": src, "output": vkit::util::truncate(&out, 1500), "expected": expect}));
         }
         Outcome::pass(interesting > 0)
+    }
+}
+
+fn has_double_quote_edge(v: &Value) -> bool {
+    let edge = |s: &str| s.starts_with("\"\"") || s.ends_with("\"\"");
+    match v {
+        Value::String(s) => edge(s),
+        Value::Array(a) => a.iter().any(has_double_quote_edge),
+        Value::Object(o) => o.iter().any(|(k, x)| edge(k) || has_double_quote_edge(x)),
+        _ => false,
     }
 }
 
